@@ -831,6 +831,23 @@ def history_rule(ctx, rid="R14.E1"):
         W.set(simu, "mesh", mesh2)
         return md2
 
+    def st_mesh_back(W, simu, mesh, mat, md):
+        # an iteration saved on mesh A, the mesh replaced by B and an iteration saved there, back to the iteration of mesh A
+        # (Set_Iter makes A current again), one assembly, THEN mesh A is deformed: the simulation follows its current mesh
+        W.call(simu, "Save_Iter")
+        md2, mesh2 = domain_mesh(W, "QUAD4")
+        W.set(simu, "mesh", mesh2)
+        load(W, simu, md2)
+        W.call(simu, "Solve")
+        W.call(simu, "Save_Iter")
+        W.call(simu, "Set_Iter", 0)
+        load(W, simu, md)
+        W.call(simu, "Get_K_C_M_F")
+        cur = W.get(simu, "mesh")
+        md3 = moved(md, shear)
+        W.set(cur, "coord", XArray((md.Nn, 3), [v for c in md3.coords for v in c]))
+        return md3
+
     def st_many(W, simu, mesh, mat, md):
         st_E(W, simu, mesh, mat, md)
         load(W, simu, md)
@@ -850,6 +867,7 @@ def history_rule(ctx, rid="R14.E1"):
         scenario("thickness changed", "TRI3", st_thick, fresh("TRI3", thickness=Q(2))),
         scenario("plane stress -> plane strain", "QUAD4", st_ps, fresh("QUAD4", planeStress=False)),
         scenario("simu.mesh replaced (TRI3 -> QUAD4)", "TRI3", st_mesh, fresh("QUAD4")),
+        scenario("iteration saved on mesh A, mesh replaced by B, back to A through Set_Iter(0), A deformed", "TRI3", st_mesh_back, fresh("TRI3", shear)),
         scenario("E changed, solve, coordinates assigned, thickness changed, solve, E restored", "TRI3", st_many, fresh("TRI3", shear, thickness=Q(2))),
     ]
     run_scenarios(ctx, r, scen)
